@@ -63,7 +63,7 @@ fn hostile_tl(r: &mut Rng, kinds: &[Kind], full_range_ints: bool) -> TlSpec {
 }
 
 fn hostile_times(s: &TlSpec, r: &mut Rng) -> Vec<f32> {
-    let mut ts = vec![0.0f32, f32::MIN_POSITIVE, 1e-30, 1.0, 1e9, 1e30, f32::MAX];
+    let mut ts = vec![0.0f32, -0.0, 1.0e-45, f32::MIN_POSITIVE, 1e-30, 1.0, 1e9, 1e30, f32::MAX];
     let mut bs = vec![s.delay.max(0.0)];
     let n = s.repeat.cycles().unwrap_or(3).min(3) as f32;
     for j in 0..=(2.0 * n) as u32 {
@@ -83,7 +83,7 @@ fn hostile_times(s: &TlSpec, r: &mut Rng) -> Vec<f32> {
     for _ in 0..4 {
         ts.push((r.unit() * 10.0) as f32);
     }
-    ts.retain(|t| t.is_finite() && *t >= 0.0);
+    ts.retain(|t| t.is_finite() && *t >= 0.0); // note: -0.0 >= 0.0 holds, negative zero is a valid time
     ts
 }
 
